@@ -1,5 +1,6 @@
 CONSTANTS
   GC = FALSE
+  NonTailIf = FALSE
   MaxSteps = 20000
 SPECIFICATION TSpec
 INVARIANT TDone
